@@ -734,6 +734,8 @@ func (s *SwitchFeatures) MarshalBinary() (data []byte, err error) {
 	bytes, err = s.Header.MarshalBinary()
 	copy(data[next:], bytes)
 	next += len(bytes)
+	copy(data[next:], s.DPID)
+	next += len(s.DPID)
 	binary.BigEndian.PutUint32(data[next:], s.Buffers)
 	next += 4
 	data[next] = s.NumTables
@@ -783,6 +785,7 @@ func (s *SwitchFeatures) UnmarshalBinary(data []byte) error {
 		p := NewPhyPort()
 		err = p.UnmarshalBinary(data[next:])
 		next += int(p.Len())
+		s.Ports = append(s.Ports, *p)
 	}
 	return err
 }
